@@ -35,7 +35,7 @@ def split_seqs(text):
 def seq_of_line(path, lineno):
     """index of the sequence (number of 'C' context lines before line lineno) in a result file"""
     n = -1
-    with open(path, encoding="utf-8") as f:
+    with open(path, encoding="utf-8", errors="replace") as f:
         for i, l in enumerate(f, 1):
             if l.startswith("C"):
                 n += 1
